@@ -408,13 +408,23 @@ class DateTime:
         else:
             return NotImplemented
 
+
+    def _compare_hightime_datetime(self, value: ht.datetime) -> int:
+        """Compare self, promoted to hightime, with value: negative, zero or positive."""
+        try:
+            promoted = self._to_hightime_datetime()
+        except OverflowError:
+            # self is beyond the range of hightime.datetime, and so beyond every value of it.
+            return -1 if self._offset._ticks < 0 else 1
+        return (promoted > value) - (promoted < value)
+
     # In comparison operators, always promote to the more precise data type (dt -> bt, bt -> ht).
     def __lt__(self, value: DateTime | _OtherDateTime, /) -> bool:
         """Return self<value."""
         if isinstance(value, self.__class__):
             return self._offset < value._offset
         elif isinstance(value, ht.datetime):
-            return self._to_hightime_datetime() < value
+            return self._compare_hightime_datetime(value) < 0
         elif isinstance(value, dt.datetime):
             return self < self.__class__(value)
         else:
@@ -425,7 +435,7 @@ class DateTime:
         if isinstance(value, self.__class__):
             return self._offset <= value._offset
         elif isinstance(value, ht.datetime):
-            return self._to_hightime_datetime() <= value
+            return self._compare_hightime_datetime(value) <= 0
         elif isinstance(value, dt.datetime):
             return self <= self.__class__(value)
         else:
@@ -436,7 +446,7 @@ class DateTime:
         if isinstance(value, self.__class__):
             return self._offset == value._offset
         elif isinstance(value, ht.datetime):
-            return self._to_hightime_datetime() == value
+            return self._compare_hightime_datetime(value) == 0
         elif isinstance(value, dt.datetime):
             return self == self.__class__(value)
         else:
@@ -447,7 +457,7 @@ class DateTime:
         if isinstance(value, self.__class__):
             return self._offset > value._offset
         elif isinstance(value, ht.datetime):
-            return self._to_hightime_datetime() > value
+            return self._compare_hightime_datetime(value) > 0
         elif isinstance(value, dt.datetime):
             return self > self.__class__(value)
         else:
@@ -458,7 +468,7 @@ class DateTime:
         if isinstance(value, self.__class__):
             return self._offset >= value._offset
         elif isinstance(value, ht.datetime):
-            return self._to_hightime_datetime() >= value
+            return self._compare_hightime_datetime(value) >= 0
         elif isinstance(value, dt.datetime):
             return self >= self.__class__(value)
         else:
